@@ -38,6 +38,11 @@ def check():
                 if not ok:
                     bad.append("%s:%d %s" % (fn, node.lineno, node.attr))
     if bad:
-        raise HarnessError("log-only fields are read on a control path, the canonical key would be unsound: "
-                           + ", ".join(bad))
+        # the field is read on a control path of this tree: it is part of the state, so it goes back into the
+        # canonical key (scenarios may then lose their fix-point and run into their caps; the evidence says so)
+        from . import world
+        fields = sorted(set(b.split(" ")[-1] for b in bad))
+        for fld in fields:
+            world.SKIP_ATTRS.discard(fld)
+        return ("fields %s are read on a control path (%s): kept in the canonical key" % (", ".join(fields), ", ".join(bad)))
     return "log-only fields %s are read only inside logger calls (ast scan of %s)" % (", ".join(FIELDS), pkg)
